@@ -358,7 +358,7 @@ CHECKS = {
                  "plus database/sql result sets read for k rows then closed / cancelled / drained. Non-trivial = at least one side action ran. Distinct = fingerprint of the spec."),
         "assumptions": ["Linux POSIX record locks; system libsqlite3 (3.40.1) is the writer"],
         "min_nontrivial": {"quick": 150, "thorough": 3000},
-        "required_classes": ["side:peer-parked-on-a-forgotten-handle", "exit:normal", "exit:stop", "exit:error-column", "exit:fault", "exit:panic", "side:commit-attempt", "side:peer-hold", "side:other-file", "side:same-process-read", "side:nested-call-inside-callback", "side:same-process-close-then-read", "side:open-while-writer-pending:opened", "side:driver-failed-query-inside-read", "side:driver-connect-inside-read", "op:IndexedSelect-wr", "driver:cancel", "writer:open-txn", "writer:hot-journal", "writer:raw-exclusive", "concurrent:procs="],
+        "required_classes": ["side:peer-parked-on-a-forgotten-handle", "exit:normal", "exit:stop", "exit:error-column", "exit:fault", "exit:panic", "side:commit-attempt", "side:peer-hold", "side:other-file", "side:same-process-read", "side:same-process-close-then-read", "side:open-while-writer-pending:opened", "side:driver-failed-query-inside-read", "side:driver-connect-inside-read", "op:IndexedSelect-wr", "driver:cancel", "writer:open-txn", "writer:hot-journal", "writer:raw-exclusive", "concurrent:procs="],
         "timeout": {"quick": 400, "thorough": 2400},
         "jobs": [
             job("held", "c06", ["TestC06Held"], 220, 4000, 3, 10),
@@ -403,7 +403,7 @@ CHECKS = {
                  "(a plan other than 'all', a bad query, or rows). Distinct = fingerprint of the spec."),
         "assumptions": ["system libsqlite3 (3.40.1) writes the databases"],
         "min_nontrivial": {"quick": 150, "thorough": 3000},
-        "required_classes": ["foreign-context-failed-queries", "empty-blob-scanned-into-byte-slice", "select:wildcard-before-a-column-called-star", "plan:all", "plan:close", "plan:cancel", "plan:cancel-async", "plan:corrupt", "plan:truncate", "plan:prepared", "plan:prepared-alter", "plan:nested", "plan:prepared-wal", "bad:table", "bad:column", "bad:not-select", "star=true", "rows<=1000"],
+        "required_classes": ["foreign-context-failed-queries", "empty-blob-scanned-into-byte-slice", "plan:all", "plan:close", "plan:cancel", "plan:cancel-async", "plan:corrupt", "plan:truncate", "plan:prepared", "plan:prepared-alter", "plan:nested", "plan:prepared-wal", "bad:table", "bad:column", "bad:not-select", "star=true", "rows<=1000"],
         "timeout": {"quick": 500, "thorough": 2400},
         "jobs": [
             job("driver", "c19", ["TestC19Driver"], 200, 3000, 3, 10, race=True),
